@@ -188,6 +188,10 @@ def cases(tier):
     for b in ("randomQ_20", "randomQ_22") + (("randomQ_36", "randomQ_40") if tier == "thorough" else ()):
         for o, t, cart, f in (("1", "[0.1,0.2]", False, 1), ("ico_4", "[0.1,0.2]", False, 2), ("cube3D_6", "[0.2,0.3]", True, 0.5)):
             out.append({"b": b, "o": o, "t": t, "cartesian": cart, "f": f})
+    # many position cells (past 256 and past 512: slab-wise / block-wise assembly of the position factor)
+    for b, o, t, cart, f in (("cube4D_4", "ico_66", "linspace(0.2,0.4,4)", False, 1), ("1", "ico_130", "[0.1,0.25,0.3,0.5,0.6]", False, 2),
+                             ("cube4D_5", "cube3D_90", "[0.1,0.2,0.3]", True, 1)):
+        out.append({"b": b, "o": o, "t": t, "cartesian": cart, "f": f})
     return out
 
 
